@@ -119,4 +119,118 @@ func extractDisk() {
 	w := fn(file, "WatchDiskSpace")
 	s.boolean("watchPausesOnErr", w != nil && strings.Contains(src(w), "err != nil && !paused") && hasCall(w, "pause.Pause"))
 	s.boolean("watchResumesOnOk", w != nil && strings.Contains(src(w), "err == nil && paused") && hasCall(w, "pause.Resume"))
+
+	// the way from the command line to that setting: the flag's declared default, and what
+	// config.handleFlagsAliases does to the key afterwards
+	extractMsrFlag(s)
+}
+
+// callArg0 returns (callee, first string-literal argument) of e when e is `pkg.Fn("lit", …)`.
+func callArg0(e ast.Expr) (string, string, bool) {
+	c, ok := unwrapParen(e).(*ast.CallExpr)
+	if !ok || len(c.Args) == 0 {
+		return "", "", false
+	}
+	l, ok := c.Args[0].(*ast.BasicLit)
+	if !ok || l.Kind != token.STRING {
+		return "", "", false
+	}
+	return src(c.Fun), strings.Trim(l.Value, "\""), true
+}
+
+func unwrapParen(e ast.Expr) ast.Expr {
+	for {
+		p, ok := e.(*ast.ParenExpr)
+		if !ok {
+			return e
+		}
+		e = p.X
+	}
+}
+
+func extractMsrFlag(s *section) {
+	// cmd/get.go: getCmd.PersistentFlags().Float64("min-space-required", D, …); is a flag "msr" declared?
+	var dflt constant.Value
+	okD, aliasDeclared := false, false
+	var aliasD constant.Value = constant.MakeInt64(0)
+	if g := fn("cmd/get.go", "getCMDsFlags"); g != nil {
+		for _, c := range calls(g) {
+			if len(c.Args) < 2 {
+				continue
+			}
+			l, ok := c.Args[0].(*ast.BasicLit)
+			if !ok || l.Kind != token.STRING {
+				continue
+			}
+			name := strings.Trim(l.Value, "\"")
+			sel, ok := c.Fun.(*ast.SelectorExpr)
+			if !ok {
+				continue
+			}
+			switch sel.Sel.Name {
+			case "Float64", "Int", "Uint", "Float32", "Int64", "Uint64":
+				v, okv := constEnv{}.eval(c.Args[1])
+				if name == "min-space-required" {
+					dflt, okD = v, okv
+				}
+				if name == "msr" {
+					aliasDeclared = true
+					if okv {
+						aliasD = v
+					}
+				}
+			}
+		}
+	}
+	s.rat("msrFlagDefault", dflt, okD)
+	s.boolean("msrAliasDeclared", aliasDeclared)
+	s.rat("msrAliasDefault", aliasD, true)
+
+	// config.go handleFlagsAliases: `if viper.GetX("msr") != C1 && viper.GetX("min-space-required") == C2 { viper.Set("min-space-required", viper.GetX("msr")) }`
+	h := fn("internal/pkg/config/config.go", "handleFlagsAliases")
+	rule := "none"
+	getter := ""
+	var c1, c2 constant.Value
+	if h != nil {
+		for _, n := range allNodes(h) {
+			is, ok := n.(*ast.IfStmt)
+			if !ok || !strings.Contains(src(is.Cond), "\"min-space-required\"") {
+				continue
+			}
+			rule = "other"
+			and, ok := unwrapParen(is.Cond).(*ast.BinaryExpr)
+			if !ok || and.Op != token.LAND {
+				continue
+			}
+			a, okA := unwrapParen(and.X).(*ast.BinaryExpr)
+			b, okB := unwrapParen(and.Y).(*ast.BinaryExpr)
+			if !okA || !okB || a.Op != token.NEQ || b.Op != token.EQL {
+				continue
+			}
+			fa, ka, o1 := callArg0(a.X)
+			fb, kb, o2 := callArg0(b.X)
+			v1, o3 := constEnv{}.eval(a.Y)
+			v2, o4 := constEnv{}.eval(b.Y)
+			if !(o1 && o2 && o3 && o4) || ka != "msr" || kb != "min-space-required" || fa != fb {
+				continue
+			}
+			// the body copies the alias into the key with the same getter
+			body := strings.ReplaceAll(src(is.Body), " ", "")
+			if len(is.Body.List) != 1 || !strings.Contains(body, "viper.Set(\"min-space-required\","+fa+"(\"msr\"))") || is.Else != nil {
+				continue
+			}
+			rule, getter, c1, c2 = "copyAlias", strings.TrimPrefix(fa, "viper."), v1, v2
+		}
+	}
+	s.str("msrAliasRule", rule, h != nil)
+	s.str("msrAliasGetter", getter, true)
+	s.rat("msrAliasUnsetConst", orZero(c1), true)
+	s.rat("msrAliasKeyConst", orZero(c2), true)
+}
+
+func orZero(v constant.Value) constant.Value {
+	if v == nil {
+		return constant.MakeInt64(0)
+	}
+	return v
 }
